@@ -127,7 +127,11 @@ pub struct Entry {
 }
 
 pub const DIRS: [&str; 10] = ["m", "map", "data", "sub dir", "@mods", "\u{30C6}\u{30AD}\u{30B9}\u{30C8}", "a.b", "E", "Map", "e_dir"];
-pub const FILES: [&str; 17] = ["GameData.bin", "map.bin", "m.bin", "map-x", "x.bin.lz", "file.cmp", "e.cms", "readme", ".hidden", "\u{30C6}.bin", "a+b=c,d~.txt", "@E", "MAP.BIN", "x.BIN", "e_common.m", "s_x.cmp", "f_"];
+pub const FILES: [&str; 23] = [
+    "GameData.bin", "map.bin", "m.bin", "map-x", "x.bin.lz", "file.cmp", "e.cms", "readme", ".hidden", "\u{30C6}.bin", "a+b=c,d~.txt", "@E", "MAP.BIN", "x.BIN", "e_common.m", "s_x.cmp", "f_",
+    // names that temp-file / backup schemes derive from the ones above
+    "GameData.tmp", "x.bin.tmp", "map.bak", "map.bin~", "file.tmp", "readme.tmp",
+];
 
 /// relative paths of plain components, depth 1..=4, from a small pool so that layers collide
 pub fn path_strategy() -> BoxedStrategy<String> {
